@@ -73,6 +73,14 @@ func c03Selectors(tag string) []C03Sel {
 		{":not(.zz)", [3]int{0, 1, 0}, true, [3]int{}},
 		{".c1, #nope", [3]int{0, 1, 0}, true, [3]int{1, 0, 0}},
 		{"#nope, " + tag, [3]int{0, 0, 1}, true, [3]int{1, 0, 0}},
+		// lists with several branches matching the probe: the most specific one gives the weight,
+		// wherever it stands in the list
+		{tag + ", #probe", [3]int{1, 0, 0}, true, [3]int{}},
+		{"#probe, " + tag, [3]int{1, 0, 0}, true, [3]int{}},
+		{"*, .c1.c2", [3]int{0, 2, 0}, true, [3]int{}},
+		{tag + ", .c1, " + tag + ".c1", [3]int{0, 1, 1}, true, [3]int{}},
+		{".c1, #anc #probe, " + tag, [3]int{2, 0, 0}, true, [3]int{}},
+		{tag + ", .nomatch, .c2", [3]int{0, 1, 0}, true, [3]int{}},
 		// decoys
 		{".nomatch", [3]int{0, 1, 0}, false, [3]int{}},
 		{"#other", [3]int{1, 0, 0}, false, [3]int{}},
